@@ -128,7 +128,7 @@ class Gen:
             # item that passes ALL the filters and falsifies the element
             self.features.add("all-any")
             self.features.add("all-multi-if")
-            tgt = self.pick([t for t in ["y", "z", "v"] if t not in self.targets])
+            tgt = self.pick(self.free_names(["y", "z", "v"]))
             it = self.expr("ilist", depth - 1)
             saved = dict(self.targets)
             self.targets[tgt] = "int"
@@ -146,12 +146,12 @@ class Gen:
             return "ident(%s %s %s)" % (e, self.pick(CMP_OPS), e)
         if k == 13:
             self.features.add("all-any")
-            tgt = self.pick([t for t in ["v", "u", "q"] if t not in self.targets])
+            tgt = self.pick(self.free_names(["v", "u", "q"]))
             its = "[%s]" % ", ".join(self.expr("ilist", depth - 1) for _ in range(self.draw(st.integers(1, 3))))
             return "all(len(%s) %s %s for %s in %s)" % (tgt, self.pick(["<", ">", "!="]), self.expr("int", 0), tgt, its)
         if k == 14:
             self.features.add("all-any")
-            tgt = self.pick([t for t in ["v", "u", "q"] if t not in self.targets])
+            tgt = self.pick(self.free_names(["v", "u", "q"]))
             its = "[%s]" % ", ".join(self.expr("str", depth - 1) for _ in range(self.draw(st.integers(1, 3))))
             return "all(%s %s %s for %s in %s)" % (tgt, self.pick(["!=", "<", "=="]), self.expr("str", 0), tgt, its)
         if k <= 1:
@@ -299,7 +299,7 @@ class Gen:
         return text
 
     def comp_clause(self, depth, avoid=None):
-        tgt = self.pick([t for t in ["y", "z", "x", "v", "u", "q"] if t != avoid and t not in self.targets])
+        tgt = self.pick(self.free_names(["y", "z", "x", "v", "u", "q"], avoid))
         if tgt == "x":
             self.features.add("target-shadows-arg")
         it = self.expr(self.pick(["ilist", "ilist", "iset", "itup"]), depth)
@@ -320,7 +320,7 @@ class Gen:
         The names are drawn from a pool that includes parameter names (x, n): a target hides the parameter."""
         self.features.add("comprehension")
         self.features.add("structured-target")
-        pool = [t for t in ["y", "z", "v", "x", "n", "u"] if t not in self.targets]
+        pool = self.free_names(["y", "z", "v", "x", "n", "u"], need=3)
         a = self.pick(pool)
         b = self.pick([t for t in pool if t != a])
         c = self.pick([t for t in pool if t not in (a, b)])
@@ -336,6 +336,16 @@ class Gen:
             return "for (%s, %s), %s in zip(zip(%s, %s), %s)" % (a, b, c, l1, l2, l1), {a: "int", b: "int", c: "int"}
         return "for %s, *%s in [%s + [%s], %s + [%s, %s]]" % (a, b, l1, self.t_int(0), l2, self.t_int(0), self.t_int(0)), {
             a: "int", b: "ilist"}
+
+    def free_names(self, cands, avoid=None, need=1):
+        """Target names not bound by an enclosing comprehension; deep nestings fall back to t1, t2, ..."""
+        out = [t for t in cands if t != avoid and t not in self.targets]
+        i = 0
+        while len(out) < need:
+            i += 1
+            if "t%d" % i not in self.targets and "t%d" % i != avoid:
+                out.append("t%d" % i)
+        return out
 
     def in_target(self, tgt, typ, fn):
         saved = dict(self.targets)
